@@ -1,0 +1,10 @@
+//go:build verif
+
+// Contracts for package cyclonedx (format helpers).
+package cyclonedx
+
+// C06: the writer's version string selects the CycloneDX spec version the
+// encoder declares (cyclonedx-go: SpecVersion1_0 = 1 ... SpecVersion1_5 = 6),
+// and the version string is what the format accessor yields
+//@ table parseVersionTable [C06]: proj(ParseVersion("1.3"), 0) == 4 && proj(ParseVersion("1.3"), 1) == nil && proj(ParseVersion("1.4"), 0) == 5 && proj(ParseVersion("1.4"), 1) == nil && proj(ParseVersion("1.5"), 0) == 6 && proj(ParseVersion("1.5"), 1) == nil
+//@ table parseEncodingTable [C06]: proj(ParseEncoding("json"), 0) == 1 && proj(ParseEncoding("json"), 1) == nil
